@@ -20,9 +20,12 @@ import (
 
 const (
 	boundedRSS  = 512 << 20
-	allocFloor  = 1 << 20   // bytes: a fresh client plus scripted exchange stays far below
+	allocFloor  = 256 << 10 // bytes: a fresh client plus scripted exchange stays below
 	nanosFloor  = 100 * 1e6 // 100 ms
-	growthLimit = 64.0
+	growthLimit = 64.0      // where the input grows at most 4x
+	// allocation counts are deterministic (runtime.MemStats.TotalAlloc), so a second, tighter rule is
+	// safe for them: more than 128x where the input grows at most 16x (quadratic gives 256x, n log n ~21x)
+	growthLimit16 = 128.0
 )
 
 type family struct {
@@ -33,7 +36,8 @@ type family struct {
 	ds   []int
 }
 
-var depths = []int{1000, 4000, 16000, 64000, 256000}
+var depths = []int{1000, 4000, 16000, 64000}
+var shallow = []int{500, 2000, 8000} // families whose cost is quadratic on the current tree: kept small
 var sizes = []int{1000, 4000, 16000, 64000, 256000, 1024000}
 
 func rep(s string, n int) string { return strings.Repeat(s, n) }
@@ -55,13 +59,16 @@ const onePart = `("TEXT" "PLAIN" NIL NIL NIL "7BIT" 1 1)`
 const nilEnv = `(NIL NIL NIL NIL NIL NIL NIL NIL NIL NIL)`
 
 var families = []family{
-	{"bodystructure-open", "fetch", "", func(d int) string { return "* 1 FETCH (BODYSTRUCTURE " + rep("(", d) + "\r\n" }, depths},
+	{"bodystructure-open", "fetch", "", func(d int) string { return "* 1 FETCH (BODYSTRUCTURE " + rep("(", d) + "\r\n" }, shallow},
 	{"bodystructure-multipart", "fetch", "", func(d int) string {
 		return "* 1 FETCH (BODYSTRUCTURE " + rep("(", d) + onePart + rep(` "MIXED")`, d) + ")\r\n"
 	}, depths},
+	{"bodystructure-walk", "fetch", "walk", func(d int) string {
+		return "* 1 FETCH (BODYSTRUCTURE " + rep("(", d) + onePart + rep(` "MIXED")`, d) + ")\r\n"
+	}, shallow},
 	{"bodystructure-rfc822", "fetch", "", func(d int) string {
 		return "* 1 FETCH (BODYSTRUCTURE " + rep(`("MESSAGE" "RFC822" NIL NIL NIL "7BIT" 1 `+nilEnv+" ", d) + onePart + rep(" 1)", d) + ")\r\n"
-	}, []int{1000, 4000, 16000, 64000}},
+	}, []int{1000, 4000, 16000}},
 	{"bodystructure-ext-open", "fetch", "", func(d int) string {
 		return `* 1 FETCH (BODYSTRUCTURE ("TEXT" "PLAIN" NIL NIL NIL "7BIT" 1 1 NIL NIL NIL NIL ` + rep("(", d) + "\r\n"
 	}, depths},
@@ -97,8 +104,11 @@ func resourceCases() []Case {
 			if f.kind == "copy" {
 				cs.Tg = 1
 			}
-			if f.acc == "" && (strings.Contains(f.name, "range")) {
-				cs.Small = 0
+			if f.acc == "" && (strings.Contains(f.name, "range") || strings.HasPrefix(f.name, "bodystructure-")) {
+				cs.Small = 0 // parse cost only: no enumeration, no Walk
+			}
+			if f.acc == "walk" {
+				cs.Acc = ""
 			}
 			cases = append(cases, cs)
 		}
@@ -107,6 +117,12 @@ func resourceCases() []Case {
 	// not meant to complete: the full allocation (16 GiB and more) is never attempted
 	cases = append(cases,
 		Case{ID: len(cases), Kind: "uidesearch", Raw: []byte("* ESEARCH (TAG \"T1\") UID ALL 1:4294967295\r\n"), Acc: "enum", Fam: "esearch-range-max", D: 4294967295, End: "ok", Small: 1},
+	)
+	// recursion probe: '('^(2^20) where a body structure is expected, with the stack limit of the children
+	cases = append(cases,
+		Case{ID: len(cases), Kind: "fetch", Raw: []byte("* 1 FETCH (BODYSTRUCTURE " + rep("(", 1<<20) + "\r\n"), Fam: "bodystructure-open-deep", D: 1 << 20, End: "ok", Small: 0},
+		Case{ID: len(cases), Kind: "thread", Raw: []byte("* THREAD " + rep("(", 1<<20) + "\r\n"), Fam: "thread-open-deep", D: 1 << 20, End: "ok", Small: 0},
+		Case{ID: len(cases), Kind: "list", Raw: []byte(`* LIST () "/" box ("X" ` + rep("(", 1<<20) + "\r\n"), Fam: "list-ext-open-deep", D: 1 << 20, End: "ok", Small: 0},
 	)
 	cases = append(cases,
 		Case{ID: len(cases), Kind: "copy", Raw: []byte("T2 OK [COPYUID 1 1:4294967295 1:4294967295] done\r\n"), Acc: "enum", Fam: "copyuid-range-max", D: 4294967295, End: "ok", Tg: 1, Small: 1},
@@ -163,7 +179,7 @@ func resourceMain(args []string) {
 	cases := resourceCases()
 	var normal, bounded []Case
 	for _, cs := range cases {
-		if strings.HasSuffix(cs.Fam, "-max") {
+		if strings.HasSuffix(cs.Fam, "-max") || strings.HasSuffix(cs.Fam, "-deep") {
 			cs.ID = len(bounded)
 			bounded = append(bounded, cs)
 		} else {
@@ -179,7 +195,7 @@ func resourceMain(args []string) {
 		out.Summary(map[string]interface{}{"infra_error": err.Error()})
 		return
 	}
-	bp := newPool(2, 1)
+	bp := newPool(4, 1)
 	bp.rss = boundedRSS
 	bp.limit = 60 * time.Second
 	bobs, err := bp.run(bounded)
@@ -214,14 +230,14 @@ func resourceMain(args []string) {
 		for i := 0; i < len(pts); i++ {
 			for j := i + 1; j < len(pts); j++ {
 				a, b := pts[i], pts[j]
-				if b.len > 4*a.len+64 {
-					continue
-				}
 				baseA := float64(a.alloc)
 				if baseA < allocFloor {
 					baseA = allocFloor
 				}
-				if float64(b.alloc) > growthLimit*baseA {
+				if b.len > 16*a.len+64 {
+					continue
+				}
+				if b.len <= 4*a.len+64 && float64(b.alloc) > growthLimit*baseA {
 					rep.mismatch("superlinear-memory/"+famSig(fam),
 						fmt.Sprintf("family %s (context=%s): input %s (%d bytes) allocated %d bytes, input %s (%d bytes) allocated %d bytes: the input grew %.2fx, the allocation %.0fx (limit %.0fx; floor %d bytes)%s",
 							fam, a.cs.Kind, preview(a.cs.Raw), a.len, a.alloc, preview(b.cs.Raw), b.len, b.alloc,
@@ -229,11 +245,19 @@ func resourceMain(args []string) {
 					i, j = len(pts), len(pts)
 					break
 				}
+				if b.len <= 16*a.len+64 && float64(b.alloc) > growthLimit16*baseA {
+					rep.mismatch("superlinear-memory/"+famSig(fam),
+						fmt.Sprintf("family %s (context=%s): input %s (%d bytes) allocated %d bytes, input %s (%d bytes) allocated %d bytes: the input grew %.2fx, the allocation %.0fx (limit %.0fx for at most 16x input; floor %d bytes)%s",
+							fam, a.cs.Kind, preview(a.cs.Raw), a.len, a.alloc, preview(b.cs.Raw), b.len, b.alloc,
+							float64(b.len)/float64(a.len), float64(b.alloc)/baseA, growthLimit16, allocFloor, accNote(b.cs)), b.cs)
+					i, j = len(pts), len(pts)
+					break
+				}
 				baseT := float64(a.nanos)
 				if baseT < nanosFloor {
 					baseT = nanosFloor
 				}
-				if float64(b.nanos) > growthLimit*baseT {
+				if b.len <= 4*a.len+64 && float64(b.nanos) > growthLimit*baseT {
 					rep.mismatch("superlinear-time/"+famSig(fam),
 						fmt.Sprintf("family %s (context=%s): input of %d bytes took %.1f ms, input of %d bytes took %.1f ms: the input grew %.2fx, the time %.0fx (limit %.0fx; floor %.0f ms)%s",
 							fam, a.cs.Kind, a.len, float64(a.nanos)/1e6, b.len, float64(b.nanos)/1e6,
